@@ -1,6 +1,6 @@
 import FsnVerif.Model.Chan
 import FsnVerif.Proofs.SkeletonTieCaps
-import FsnVerif.Proofs.BridgeTables
+import FsnVerif.Proofs.BridgeCaps
 import FsnVerif.Proofs.InotifyLemmas
 /-!
 # C14 — The event stream does not depend on buffering or on other Watchers (model side)
